@@ -588,6 +588,10 @@ def long_case_(seed, k, tier, very=False):
         n = r.randrange(10001, 13001 if tier == "quick" else 40001)
         n += 1 if n % 1024 == 0 else 0
     df = long_frame(r, n)
+    if very:
+        # many distinct values (exactly representable): quantiles of different subsets differ
+        df["x"] = df["x"].to_numpy() + np.asarray([r.randrange(0, 8192) / 2048 for _ in range(n)])
+        df["z"] = df["z"].to_numpy() + np.asarray([r.randrange(0, 8192) / 4096 for _ in range(n)])
     base = None
     for _ in range(1 if very else 6):                 # a formula the implementation accepts
         if very:
